@@ -24,6 +24,12 @@
     // The checksum function is stubbed by a constant, so "mismatch" / "match" are decided by the first 8 bytes alone;
     // all 64-byte pages (room for 2 entries).
     pub fn vk_checksum_const(_buf: &[u8]) -> u64 { 0x0123_4567_89AB_CDEF }
+    /// same constant, and it checks WHAT is checksummed: everything behind the 8 checksum bytes of the 64-byte page, i.e.
+    /// the count field and the entries (a checksum that skips the count lets a corrupted count through)
+    pub fn vk_checksum_const_over_count_and_entries(buf: &[u8]) -> u64 {
+        assert!(buf.len() == 64 - 8, "[blob_index_checksum_covers_the_count_field_and_the_entries]");
+        0x0123_4567_89AB_CDEF
+    }
 
     #[kani::proof]
     #[kani::unwind(4)]
@@ -40,7 +46,7 @@
 
     #[kani::proof]
     #[kani::unwind(4)]
-    #[kani::stub(crate::serde::Checksummer::checksum64, vk_checksum_const)]
+    #[kani::stub(crate::serde::Checksummer::checksum64, vk_checksum_const_over_count_and_entries)]
     fn blob_index_good_checksum_decodes_count_entries() {
         let mut buf: [u8; 64] = kani::any();
         let c = 0x0123_4567_89AB_CDEFu64.to_be_bytes();
